@@ -54,6 +54,8 @@ structure DirInv (c : Nat) (a : SrcV) (b : SinkV) : Prop where
   nl1    : b.sawShut = false → a.present = true → a.mwShutW = true → a.buf = [] ∧ a.shutR = true
   -- a STOP_SENDING frame is in flight only from an end whose socket wrapper is shut for writing
   stopOk : hasStop c a.out = true → a.ownShutW = true
+  -- at most one CONNECT of the channel is ever in flight, and only while the sink was never created
+  connOk : nConnect c a.out = 0 ∨ (nConnect c a.out = 1 ∧ b.ever = false)
 
 /-! ### transitions of the source view -/
 
@@ -134,15 +136,29 @@ theorem hasStop_append_single (c : Nat) (q : List Frame) (fr : Frame) (h : isSto
     hasStop c (q ++ [fr]) = hasStop c q := by
   rw [hasStop_append]; simp [hasStop, h]
 
+theorem nConnect_append_single (c : Nat) (q : List Frame) (fr : Frame) (h : isConnect c fr = false) :
+    nConnect c (q ++ [fr]) = nConnect c q := by
+  rw [nConnect_append, nConnect_single, h]; simp
+
+theorem notConnect_data (c : Nat) (d : Bytes) : isConnect c ⟨c, DATA, d⟩ = false := by
+  simp [isConnect]; exact fun h => absurd h cmds_distinct.2.2.1
+
+theorem notConnect_eof (c : Nat) : isConnect c ⟨c, EOF, []⟩ = false := by
+  simp [isConnect]; exact fun h => absurd h cmds_distinct.2.2.2.2.1
+
+theorem notConnect_stop (c : Nat) : isConnect c ⟨c, STOP, []⟩ = false := by
+  simp [isConnect]; exact fun h => absurd h cmds_distinct.2.2.2.2.2
+
 /-- Appending one frame that is neither DATA nor EOF of `c` to the queue. -/
 theorem DirInv.appendInert {c : Nat} {a : SrcV} {b : SinkV} (h : DirInv c a b) (fr : Frame)
     (hd : isData c fr = false) (he : isEof c fr = false)
     (hf : a.ever = false → isStream c fr = false)
-    (hst : isStop c fr = true → a.ownShutW = true) :
+    (hst : isStop c fr = true → a.ownShutW = true) (hcn : isConnect c fr = false) :
     DirInv c { a with out := a.out ++ [fr] } b := by
   have hdo : dataOf c (a.out ++ [fr]) = dataOf c a.out := by
     rw [dataOf_append, dataOf_single_other _ _ hd, List.append_nil]
-  refine { h with exact := ?_, conn := ?_, fresh := ?_, clean := ?_, eofNM := ?_, gone := ?_, stopOk := ?_ }
+  refine { h with exact := ?_, conn := ?_, fresh := ?_, clean := ?_, eofNM := ?_, gone := ?_, stopOk := ?_,
+                  connOk := by rw [nConnect_append_single _ _ _ hcn]; exact h.connOk }
   · rcases h.exact with hs | he'
     · exact Or.inl hs
     · exact Or.inr (by simp only [hdo]; exact he')
@@ -220,7 +236,8 @@ theorem DirInv.srcStep {c : Nat} {a a' : SrcV} {b : SinkV} (h : DirInv c a b)
       | false => rfl
       | true => exact absurd (h.eofNM he) notNM
     refine { h with exact := ?_, conn := ?_, fresh := ?_, clean := ?_, eofNM := ?_, gone := ?_,
-                    srcBuf := ?_, nl1 := ?_, stopOk := ?_ }
+                    srcBuf := ?_, nl1 := ?_, stopOk := ?_,
+                    connOk := by rw [nConnect_append_single _ _ _ (notConnect_data c moved)]; exact h.connOk }
     · rcases h.exact with hs | he
       · exact Or.inl hs
       · right
@@ -253,7 +270,8 @@ theorem DirInv.srcStep {c : Nat} {a a' : SrcV} {b : SinkV} (h : DirInv c a b)
     have nm' : noMore { a with mwShutW := true, out := a.out ++ [⟨c, EOF, []⟩] } :=
       ⟨hev, Or.inr ⟨rfl, hb, hr⟩⟩
     refine { h with exact := ?_, conn := ?_, fresh := ?_, clean := ?_, eofNM := ?_, gone := ?_,
-                    nl1 := ?_, stopOk := ?_ }
+                    nl1 := ?_, stopOk := ?_,
+                    connOk := by rw [nConnect_append_single _ _ _ (notConnect_eof c)]; exact h.connOk }
     · rcases h.exact with hs | he
       · exact Or.inl hs
       · right
@@ -279,9 +297,10 @@ theorem DirInv.srcStep {c : Nat} {a a' : SrcV} {b : SinkV} (h : DirInv c a b)
   | stopFrame hp hs =>
     have hev := h.srcEv hp
     exact h.appendInert _ (notData_stop c) (notEof_stop c) (fun he => by rw [hev] at he; cases he) (fun _ => hs)
+      (notConnect_stop c)
   | foreign fr hf =>
     exact h.appendInert fr hf.notData hf.notEof (fun _ => hf.1)
-      (fun hh => by rw [hf.notStop] at hh; cases hh)
+      (fun hh => by rw [hf.notStop] at hh; cases hh) hf.2
   | discard hp hw =>
     have hev := h.srcEv hp
     refine { h with exact := ?_, fresh := ?_, eofNM := ?_, gone := ?_, srcBuf := ?_, nl1 := ?_ }
@@ -481,8 +500,20 @@ theorem DirInv.pop {c : Nat} {a : SrcV} {b : SinkV} (h : DirInv c a b) (fr : Fra
     (hc : isConnect c fr = true → b.ever = true) :
     DirInv c { a with out := rest } b := by
   have hdo : dataOf c a.out = dataOf c rest := by rw [ho]; simp [dataOf, hd]
+  have hnc : isConnect c fr = false := by
+    cases hcc : isConnect c fr with
+    | false => rfl
+    | true =>
+      have hev := hc hcc
+      have hk := h.connOk
+      rw [ho, nConnect_cons, hcc] at hk
+      rcases hk with hk | ⟨_, hk⟩
+      · simp at hk
+      · rw [hev] at hk; cases hk
+  have hcnt : nConnect c rest = nConnect c a.out := by rw [ho, nConnect_cons, hnc]; simp
   refine { h with exact := ?_, conn := ?_, fresh := ?_, clean := ?_, eofNM := ?_, gone := ?_,
-                  stopOk := fun hh => h.stopOk (by rw [ho]; exact hasStop_tail hh) }
+                  stopOk := fun hh => h.stopOk (by rw [ho]; exact hasStop_tail hh),
+                  connOk := by rw [hcnt]; exact h.connOk }
   · rcases h.exact with hs | he
     · exact Or.inl hs
     · exact Or.inr (by rw [← hdo]; exact he)
@@ -515,8 +546,17 @@ theorem DirInv.dataAccepted {c : Nat} {a : SrcV} {b : SinkV} (h : DirInv c a b) 
   have hdo : dataOf c a.out = fr.data ++ dataOf c rest := by rw [ho]; simp [dataOf, hd]
   have hev := h.snkEv hp
   have hstream := isData_stream hd
+  have hncn : isConnect c fr = false := by
+    simp only [isData, Bool.and_eq_true, beq_iff_eq] at hd
+    simp only [isConnect, hd.2]
+    have := cmds_distinct.2.2.1
+    simp [this]
+  have hcnt : nConnect c rest = nConnect c a.out := by rw [ho, nConnect_cons, hncn]; simp
   refine { h with exact := ?_, conn := ?_, fresh := ?_, clean := ?_, eofNM := ?_, gone := ?_, snkBuf := ?_,
-                  stopOk := fun hh => h.stopOk (by rw [ho]; exact hasStop_tail hh) }
+                  stopOk := fun hh => h.stopOk (by rw [ho]; exact hasStop_tail hh),
+                  connOk := (by
+                    show nConnect c rest = 0 ∨ (nConnect c rest = 1 ∧ b.ever = false)
+                    rw [hcnt]; exact h.connOk) }
   · rcases h.exact with hs | he
     · exact Or.inl hs
     · exact Or.inr (by simp only [he, hdo]; simp)
@@ -561,11 +601,13 @@ theorem DirInv.dataDropped {c : Nat} {a : SrcV} {b : SinkV} (h : DirInv c a b) (
       rw [ho] at this
       simp only [connectAhead, hnc, hstream] at this
       rcases this with h1 | ⟨h1, _⟩ <;> cases h1
+  have hcnt : nConnect c rest = nConnect c a.out := by rw [ho, nConnect_cons, hnc]; simp
+  have hck : nConnect c rest = 0 ∨ (nConnect c rest = 1 ∧ b.ever = false) := by rw [hcnt]; exact h.connOk
   rcases h.gone hev hg with hs | ⟨nm, hd'⟩
   · -- blocked: the exact equation is no longer needed
     refine { h with exact := Or.inl hs, conn := ?_, fresh := ?_, clean := ?_, eofNM := ?_,
                     gone := fun _ _ => Or.inl hs,
-                    stopOk := fun hh => h.stopOk (by rw [ho]; exact hasStop_tail hh) }
+                    stopOk := fun hh => h.stopOk (by rw [ho]; exact hasStop_tail hh), connOk := hck }
     · intro hbe; rw [hev] at hbe; cases hbe
     · intro hae
       obtain ⟨_, _, h3⟩ := h.fresh hae
@@ -580,7 +622,7 @@ theorem DirInv.dataDropped {c : Nat} {a : SrcV} {b : SinkV} (h : DirInv c a b) (
   · rw [hdo] at hd'
     obtain ⟨hfd, hrest⟩ := List.append_eq_nil_iff.mp hd'
     refine { h with exact := ?_, conn := ?_, fresh := ?_, clean := ?_, eofNM := ?_, gone := ?_,
-                    stopOk := fun hh => h.stopOk (by rw [ho]; exact hasStop_tail hh) }
+                    stopOk := fun hh => h.stopOk (by rw [ho]; exact hasStop_tail hh), connOk := hck }
     · rcases h.exact with hs | he
       · exact Or.inl hs
       · exact Or.inr (by simp [he, hdo, hfd, hrest])
@@ -641,7 +683,13 @@ theorem DirInv.connectCreates {c : Nat} {a : SrcV} {b : SinkV} (h : DirInv c a b
            gone := ?_, dead := ?_, srcBuf := h.srcBuf, snkBuf := ?_, srcEv := h.srcEv, snkEv := ?_,
            goneShut := fun _ hp => (by cases hp),
            nl1 := ?_,
-           stopOk := fun hh => h.stopOk (by rw [ho]; exact hasStop_tail hh) }
+           stopOk := fun hh => h.stopOk (by rw [ho]; exact hasStop_tail hh),
+           connOk := Or.inl (by
+             have hk := h.connOk
+             rw [ho, nConnect_cons, hc] at hk
+             rcases hk with hk | ⟨hk, _⟩
+             · simp at hk
+             · simpa using hk) }
   · rcases h.exact with hs | he
     · exact Or.inl (hmono hs)
     · exact Or.inr (by rw [he, hb0, hdo])
